@@ -304,6 +304,19 @@ def meta_case(case, res):
                 res.violation("assign|invalid accepted", f"{cls}.{key} {what} was accepted: {after}", case, sub)
             else:
                 res.hits["augmented assignments"] += 1
+    # the Dask helpers on a signal of zero time samples (a valid signal) reproduce it
+    z0 = C(valid_array(cls, 2), **base_kwargs(cls))[4:]
+    for nm in ("rechunk", "to_dask_array", "compute", "persist"):
+        res.transitions += 1
+        try:
+            o = getattr(z0, nm)()
+            d = invariants.attrs_equal(o, z0) if nm in ("compute",) else (None if (type(o) is type(z0) and o.shape == z0.shape) else "type/shape")
+            if d:
+                res.violation(f"copies|{nm} of an empty signal", f"{cls}: {d}", case, {"op": nm})
+            else:
+                res.hits["Dask helpers on an empty signal"] += 1
+        except Exception as e:
+            res.violation(f"copies|{nm} of an empty signal raised", f"{cls}[4:].{nm}(): {type(e).__name__}: {e}", case, {"op": nm})
     res.sample({"cls": cls, "menus": {k: len(v) for k, v in mm.items()}}, 1)
 
 
@@ -589,7 +602,7 @@ def main(argv=None):
         required_hits=["refused under python -O", "safe cast applied", "byte-swapped input", "zero-length but valid", "invalid rejected with ValueError",
                        "zero-length AND empty sample shape rejected", "odd nchan with explicit alignment",
                        "invalid metadata rejected", "invalid assignment rejected", "operation outputs monitored",
-                       "baseband stepped slice chain", "copies", "assignment then copy", "like with overrides", "like missing required -> ValueError", "length refused as a frequency under ambient equivalencies", "augmented assignments"],
+                       "baseband stepped slice chain", "copies", "assignment then copy", "like with overrides", "like missing required -> ValueError", "length refused as a frequency under ambient equivalencies", "augmented assignments", "Dask helpers on an empty signal"],
         assumptions=["'safe' is NumPy's can_cast(..., 'safe') table", "constructor inputs are NumPy or Dask arrays (the statement's domain)",
                      "baseband chan_bw == sample_rate is demanded at creation, not after a later sample_rate assignment"],
         argv=argv, chunksize=1)
